@@ -4,7 +4,7 @@
 cd /verif; mkdir -p out; SEEDS=${@:-$(ls seeded)}
 for sd in $SEEDS; do
   pid=$(python3 -c "import json; print(json.load(open('seeded/$sd/meta.json'))['property'])")
-  git -C /repo apply seeded/$sd/patch.diff || { echo "$sd: patch does not apply"; continue; }
+  git -C /repo apply /verif/seeded/$sd/patch.diff || { echo "$sd: patch does not apply"; continue; }
   ./check $pid > out/seed-$sd.stdout 2> out/seed-$sd.stderr; rc=$?
   git -C /repo checkout -- .
   echo "$sd property=$pid rc=$rc violations=$(grep -c '^VIOLATION' out/seed-$sd.stdout) $(grep -m1 -A1 '^VIOLATION' out/seed-$sd.stderr out/seed-$sd.stdout 2>/dev/null | grep -m1 'vk_assert\|:' | cut -c1-160)"
